@@ -131,6 +131,14 @@ def chainBlow : Nat → List Nat → Bool
   | _, [] => false
   | d, c :: cs => c > boundFactor * (d + 1) || chainBlow (d + 1) cs
 
+/-- growth of the leaf's count with the depth of the chain, as opposed to periodic variation along the cycle of level
+styles (cycle lengths 1–4, so windows of 12 depths): with ≥ 32 depths the maximum over the last 12 exceeds the maximum
+over depths 8–19; with fewer (the pass was cut short) the last count exceeds every earlier one and the one at depth 8 -/
+def chainGrows (nd : Nat) (cs : List Nat) : Bool :=
+  let maxL (l : List Nat) := l.foldl Nat.max 0
+  if nd ≥ 32 then maxL (cs.drop (nd - 12)) > maxL ((cs.drop 7).take 12)
+  else nd > 8 && cs.getLast?.getD 0 > cs.getD 7 0 && cs.getLast?.getD 0 > maxL (cs.take (nd - 1))
+
 def c16 (ws : List String) : String :=
   match ws with
   | "mix" :: n :: total :: _misses :: k :: counts =>
@@ -144,7 +152,7 @@ def c16 (ws : List String) : String :=
     | some nd, some cs =>
       if cs.length != nd then "bad c16-count-mismatch"
       else if chainBlow 1 cs then "bad c16-measure-blowup"
-      else if nd > 8 && cs.getLast?.getD 0 > cs.getD 7 0 then "bad c16-chain-growth"
+      else if chainGrows nd cs then "bad c16-chain-growth"
       else "ok"
     | _, _ => "parse-error"
   | _ => "parse-error"
